@@ -48,7 +48,7 @@ inductive Step : PSt → PSt → Prop
   | updateX (s : PSt) (N : Sub) (lb1 : Int) (x : DDOut) (pre post) : s.held = pre ++ (N, .doneX lb1 x) :: post →
       Step s ⟨s.fringe, if x.isExact then pre ++ post else pre ++ (N, .updX lb1 x) :: post, upd s.lb x.bestExact⟩
   | enqueue (s : PSt) (N : Sub) (lb1 : Int) (x : DDOut) (pre post) : s.held = pre ++ (N, .updX lb1 x) :: post →
-      Step s ⟨s.fringe ++ capCut N s.lb x.cutset, pre ++ post, s.lb⟩
+      Step s ⟨s.fringe ++ keepCut s.lb x.cutset, pre ++ post, s.lb⟩
 
 /-- what is known about a held entry -/
 def StageOk (lb : Int) : Sub × Stage → Prop
@@ -281,9 +281,8 @@ theorem step_inv {s t : PSt} (h : Step Phi opt Ach s t) (hi : PInv Phi opt Ach s
     · intro c hc
       rcases List.mem_append.mp hc with hc | hc
       · exact hgF c hc
-      · simp only [capCut, List.mem_filter, List.mem_map] at hc
-        obtain ⟨⟨c0, hc0, rfl⟩, _⟩ := hc
-        exact hcg c0 hc0
+      · simp only [keepCut, List.mem_filter] at hc
+        exact hcg c hc.1
     · intro hgt
       dsimp only at hgt
       obtain ⟨c, hc, h1, h2⟩ := hcov hgt
@@ -296,9 +295,9 @@ theorem step_inv {s t : PSt} (h : Step Phi opt Ach s t) (hi : PInv Phi opt Ach s
           have hyeq : y = opt := by omega
           subst hyeq
           have hcu := hcub c' hc' y hy (by omega)
-          refine ⟨{ c' with ub := min c.ub c'.ub }, Or.inl (List.mem_append_right _ ?_), hy, by simp; omega⟩
-          simp only [capCut, List.mem_filter, List.mem_map, decide_eq_true_eq]
-          exact ⟨⟨c', hc', rfl⟩, by simp; omega⟩
+          refine ⟨c', Or.inl (List.mem_append_right _ ?_), hy, hcu⟩
+          simp only [keepCut, List.mem_filter, decide_eq_true_eq]
+          exact ⟨hc', by omega⟩
         · exact ⟨c, Or.inr hc, h1, h2⟩
 
 /-- at completion (nothing open, nothing held) the incumbent is the optimum -/
